@@ -258,6 +258,7 @@ fn check_chain(c: &ChainCase, cx: &mut Cx) -> Res {
             return Ok(());
         }
     }
+    let tagged_commit = repo.model.head_commit();
     if c.touch && !(run(&mut repo, Op::TouchUnchanged) && run(&mut repo, Op::EmptyDir)) {
         return Ok(());
     }
@@ -296,6 +297,19 @@ fn check_chain(c: &ChainCase, cx: &mut Cx) -> Res {
             });
             ensure!(o.code == Some(0), "flow failed {} commits after the tag: {}", i + 1, o.err_str());
             let v = o.out_str().trim_end().to_string();
+            // commit post-mode: the post number is the number of commits since the tag
+            {
+                let m = &repo.model;
+                let head = m.head_commit();
+                let tc = tagged_commit;
+                let dist = m.ancestors(head).difference(&m.ancestors(tc)).count() as u64;
+                let marker = if pep440 { ".post" } else { ".post." };
+                if let Some(i) = v.find(marker) {
+                    let digits: String = v[i + marker.len()..].chars().take_while(|ch| ch.is_ascii_digit()).collect();
+                    ensure!(digits == dist.to_string(), "step {}: {v:?} shows post {digits}, but HEAD is {dist} commits after the tag ({fmt}, {schema}; {})", i + 1, repo.log.join("; "));
+                    cx.label("post-equals-distance");
+                }
+            }
             let ord = cmp_out(&prev[k], &v, pep440)?;
             ensure!(ord == Ordering::Less, "step {} ({}): version did not increase along the first-parent chain: {:?} then {v:?} ({fmt}, {schema}; {})", i + 1, if *merge { "merge" } else { "commit" }, prev[k], repo.log.join("; "));
             cx.note(|| format!("{tag} +{} -> {v}", i + 1));
